@@ -347,6 +347,65 @@ func rulePrechecks(c *Check, w *World, tb *TB, rule string, h *ssa.Function, nee
 	}
 }
 
+// ruleRawSuiteConsistency: in the service layer every library call that takes the raw suite text (the
+// known-suite test, the lookup, the instantiation) takes the request's raw_suite field itself. A test on a
+// normalised copy (trimmed, folded) followed by a use of the original lets names through that the library then
+// does not know: MustRawSuite panics, SuiteConfigFromRaws answers with the zero configuration.
+func ruleRawSuiteConsistency(c *Check, w *World, tb *TB, rule string) {
+	if w.SPkgs[ApiPath] == nil {
+		return
+	}
+	takesRaw := map[string]bool{"IsKnownSuite": true, "MustRawSuite": true, "SuiteConfigFromRaws": true, "NewRawSuite": true}
+	n := 0
+	routes, _ := routeTable(w, tb)
+	for _, r := range routes {
+		h := r.handler
+		if h == nil {
+			continue
+		}
+		seen := map[string]bool{}
+		var walk func(f *ssa.Function, e *Env, depth int)
+		walk = func(f *ssa.Function, e *Env, depth int) {
+			if depth > 4 || f.Blocks == nil {
+				return
+			}
+			EachInstr(f, func(in ssa.Instruction) {
+				ci, ok := in.(ssa.CallInstruction)
+				if !ok {
+					return
+				}
+				g := ci.Common().StaticCallee()
+				if g == nil || !w.InModule(g) {
+					return
+				}
+				if fnPkgPath(g) == OtpPath {
+					if takesRaw[g.Name()] && len(ci.Common().Args) == 1 {
+						t := tb.Val(ci.Common().Args[0], e)
+						key := g.Name() + "@" + FuncName(f)
+						if seen[key] {
+							return
+						}
+						seen[key] = true
+						n++
+						ok := t.Op == "field" && t.Sym == "RawSuite"
+						c.Decide(ok, rule, FuncName(h), "raw-suite-text:"+key, "the library is handed the request's raw_suite field itself", "otp."+g.Name()+" is handed "+clip(t.String(), 160)+", not the raw_suite field itself: the known-suite test and the later use can see different text", w.InstrPos(in))
+					}
+					return
+				}
+				var args []*Term
+				for _, a := range ci.Common().Args {
+					args = append(args, tb.Val(a, e))
+				}
+				walk(g, &Env{Fn: g, Params: args}, depth+1)
+			})
+		}
+		walk(h, nil, 0)
+	}
+	if n == 0 {
+		c.Unk(rule, "api", "raw-suite-text", "no service-layer call taking the raw suite text found", "")
+	}
+}
+
 func checkRESTEndpoints(c *Check, w *World, tb *TB, ef *Effects, pfx string, only ...string) {
 	if w.SPkgs[ApiPath] == nil {
 		return
@@ -485,6 +544,9 @@ func restRules(c *Check, w *World, tb *TB, ef *Effects, pfx string, only []strin
 			}
 		}
 		return out
+	}
+	if sel("/ocra/generate") || sel("/ocra/validate") || sel("/ocra/suite") {
+		ruleRawSuiteConsistency(c, w, tb, pfx+".7")
 	}
 	prechecked := map[*ssa.Function]bool{}
 	checkArgs := func(path, lib string, argSpecs []interface{}, respField string) {
